@@ -77,6 +77,14 @@ CURATED = [
     [L([O('nkstar', [], star='Any', nokw=True)])],
     # keyword names differ between overloads
     [L([O('xy', [P('x', 'A'), P('y', 'A')]), O('yx', [P('y', 'A'), P('x', 'A')])])],
+    # lazy parameters: overloads that survive the arity filter must agree on which arguments stay unevaluated
+    [L([O('lz', [P('x', 'A'), P('y', 'Lazy')]), O('eg', [P('x', 'A'), P('y', 'Any')])])],
+    [L([O('lz', [P('x', 'D'), P('y', 'Lazy')]), O('eg', [P('x', 'A'), P('y', 'Any')])])],
+    [L([O('lz', [P('x', 'B'), P('y', 'Lazy')]), O('lz2', [P('x', 'A'), P('y', 'Lazy')])])],
+    [L([O('lz', [P('x', 'Any'), P('y', 'Lazy')]), O('dd', [P('x', 'Any', True), P('y', 'Any', True)])])],
+    [L([O('lz', [P('x', 'Any'), P('y', 'Lazy')])]), L([O('eg', [P('x', 'Any'), P('y', 'Int')])])],
+    [L([O('lz', [P('x', 'Lazy')]), O('two', [P('x', 'A'), P('y', 'A')])])],
+    [L([O('lzd', [P('x', 'A'), P('y', 'Lazy', True)]), O('eg', [P('x', 'B'), P('y', 'Int', True)])])],
 ]
 
 
@@ -94,12 +102,15 @@ def random_family(rng):
             dflt = False
             for n in names:
                 dflt = dflt or rng.random() < 0.3       # python: defaults only at the tail
-                params.append(P(n, rng.choice(TYPES), dflt))
+                params.append(P(n, 'Lazy' if rng.random() < 0.12 else rng.choice(TYPES), dflt))
             if rng.random() < 0.35:
                 params.insert(rng.randint(0, len(params)), H)
                 # a hidden parameter after a defaulted one needs a default itself in Python; the harness gives it one
             star = rng.choice(TYPES) if rng.random() < 0.2 else 'none'
             kind = rng.choice(['f', 'f', 'm', 'e'])
+            vis = [p for p in params if p['ty'] != 'hidden']
+            if kind in 'me' and vis and vis[0]['ty'] == 'Lazy':
+                vis[0]['ty'] = 'Any'         # the receiver of a method is always a value
             ovs.append(O('t%d' % tagn, params, fn=kind in 'fe', me=kind in 'me', star=star, nokw=rng.random() < 0.12))
         # a method needs a first visible parameter that is not *args-only
         ovs = [o for o in ovs if not (o['me'] and not [p for p in o['params'] if p['ty'] != 'hidden'])] or \
@@ -209,7 +220,7 @@ def build_fd(o, ran):
             nm = p['name']
             if p['def']:
                 seen_default = True
-                sig.append('%s=_DEF_%s' % (nm, p['ty']))
+                sig.append('%s=%s' % (nm, 'None' if p['ty'] == 'Lazy' else '_DEF_' + p['ty']))
             elif seen_default:
                 raise ValueError('non-default after default')
             else:
@@ -252,6 +263,8 @@ def _ptype(o, n, pnames, lat, yaqltypes):
     p = o['params'][pnames.index(n) - 1]
     if p['ty'] == 'hidden':
         return yaqltypes.Context()
+    if p['ty'] == 'Lazy':
+        return yaqltypes.Lambda()
     return yaqltypes.PythonType(lat.cls[p['ty']], nullable=p['ty'] == 'Any')
 
 
@@ -392,6 +405,9 @@ def check_case(rep, runner, fam_cache, fi, family, call, out, label, orders=None
             rep.violation('%s/outcome/%s-vs-%s' % (label, exp[0], got[0]),
                           '%s with family %s: real %r, documented rules give %r (order %s)' % (txt, _fam_short(family), got, exp, order), case)
         # eager arguments: at most once each, exactly once when something ran or matching went past the arity filter
+        # (families with lazy parameters: which arguments are evaluated is C11's business)
+        if any(p['ty'] == 'Lazy' for layer in family for o in layer['ovs'] for p in o['params']):
+            continue
         cnt = {}
         for t in ticks:
             cnt[t] = cnt.get(t, 0) + 1
